@@ -181,7 +181,8 @@ Inductive fltfmt := F32 | F64 | FUnspec | FBad.
 Inductive keyfmt := KNone | KInformal | KCustom | KUuid | KId62 | KNilType.
 (* KeyField.Entity: nil | primary_key = b | foreign_key | set with a nil Type *)
 Inductive entkey := ENone | EPrimary (b : bool) | EForeign | ENilType.
-Record int_rules := mkIR { ir_min : bool; ir_max : bool; ir_xmin : option bool; ir_xmax : option bool }.
+(* ir_bad: a present bound lies outside the range of the format, or minimum > maximum (checkIntegerBounds) *)
+Record int_rules := mkIR { ir_min : bool; ir_max : bool; ir_xmin : option bool; ir_xmax : option bool; ir_bad : bool }.
 
 Inductive fty :=
 | TObject (r : ref_out) (flatten rules : bool)
@@ -313,7 +314,8 @@ Definition resolve (r : ref_out) : M refkind :=
 (* ------------------------------------------------------------------ buildField *)
 Definition bad_int_rules (r : int_rules) : bool :=
   match ir_xmin r, ir_min r with Some false, false => true | _, _ => false end
-  || match ir_xmax r, ir_max r with Some false, false => true | _, _ => false end.
+  || match ir_xmax r, ir_max r with Some false, false => true | _, _ => false end
+  || (ir_bad r && (ir_min r || ir_max r)).
 
 Definition int_ptype (f : intfmt) : option ptype :=
   match f with I32 => Some PInt32 | I64 => Some PInt64 | U32 => Some PUint32 | U64 => Some PUint64 | _ => None end.
@@ -516,6 +518,14 @@ Definition compile_iso (p : prop) : iso_obs :=
       else if links s d then mkObs VOk (imps s) (opts s) (Some d)
       else mkObs VLinkErr (imps s) (opts s) (Some d)
   end.
+
+(* number of errors recorded by the visit (each through conversionVisitor.addError) *)
+Definition iso_nerr (p : prop) : nat :=
+  match visit_object p st0 with Ok (_, s) => nerr s | _ => 0 end.
+(* addError attaches node.GetPos() whenever it is non-nil, and sourcewalk's GetPos returns the address of a
+   composite literal: the three syntactic facts are regenerated from the Go source *)
+Definition errors_positioned : bool :=
+  SetExtGen.adderror_adds_position && SetExtGen.adderror_guard_is_nil_check && SetExtGen.getpos_returns_literal_address.
 
 (* ------------------------------------------------------------------ the documented language *)
 (* Written from README.md (field types, `!`/`?`, rules, inline types, array/map with a
